@@ -275,6 +275,10 @@ pub enum UKind {
     OptF64,
     RevF32,
     RevF64,
+    /// NoHashHasher variants: the item value IS the hash (adversarial hashes such as 0 or u64::MAX can be streamed)
+    Smh2U64NoHash,
+    OptF64NoHash,
+    RevF64NoHash,
 }
 
 impl UKind {
@@ -282,14 +286,20 @@ impl UKind {
         format!("{:?}", self)
     }
     pub fn is_dens(&self) -> bool {
-        matches!(self, UKind::OptF32 | UKind::OptF64 | UKind::RevF32 | UKind::RevF64)
+        matches!(self, UKind::OptF32 | UKind::OptF64 | UKind::RevF32 | UKind::RevF64 | UKind::OptF64NoHash | UKind::RevF64NoHash)
+    }
+    pub fn is_nohash(&self) -> bool {
+        matches!(self, UKind::SmhF64NoHash | UKind::Smh2U64NoHash | UKind::OptF64NoHash | UKind::RevF64NoHash)
+    }
+    pub fn is_rev(&self) -> bool {
+        matches!(self, UKind::RevF32 | UKind::RevF64 | UKind::RevF64NoHash)
     }
     /// hash of an item as the sketcher computes it
     pub fn item_hash(&self, x: u64) -> u64 {
         use std::hash::BuildHasher;
         match self {
             UKind::Smh2U32 => BuildHasherDefault::<XxHash32>::default().hash_one(x),
-            UKind::SmhF64NoHash => BuildHasherDefault::<NoHashHasher>::default().hash_one(x),
+            UKind::SmhF64NoHash | UKind::Smh2U64NoHash | UKind::OptF64NoHash | UKind::RevF64NoHash => BuildHasherDefault::<NoHashHasher>::default().hash_one(x),
             _ => BuildHasherDefault::<FnvHasher>::default().hash_one(x),
         }
     }
@@ -344,6 +354,7 @@ macro_rules! impl_smh2 {
     };
 }
 impl_smh2!(u64, FnvHasher);
+impl_smh2!(u64, NoHashHasher);
 impl_smh2!(u32, XxHash32);
 
 macro_rules! impl_set {
@@ -373,7 +384,10 @@ impl_set!(u32);
 
 macro_rules! impl_dens {
     ($t:ident, $f:ty) => {
-        impl USk for $t<$f, u64, FnvHasher> {
+        impl_dens!($t, $f, FnvHasher);
+    };
+    ($t:ident, $f:ty, $h:ty) => {
+        impl USk for $t<$f, u64, $h> {
             fn sketch(&mut self, x: u64) {
                 $t::sketch(self, &x);
             }
@@ -402,6 +416,8 @@ impl_dens!(OptDensMinHash, f32);
 impl_dens!(OptDensMinHash, f64);
 impl_dens!(RevOptDensMinHash, f32);
 impl_dens!(RevOptDensMinHash, f64);
+impl_dens!(OptDensMinHash, f64, NoHashHasher);
+impl_dens!(RevOptDensMinHash, f64, NoHashHasher);
 
 pub fn make_usk(kind: UKind, m: usize) -> Box<dyn USk> {
     match kind {
@@ -416,6 +432,9 @@ pub fn make_usk(kind: UKind, m: usize) -> Box<dyn USk> {
         UKind::OptF64 => Box::new(OptDensMinHash::<f64, u64, FnvHasher>::new(m, Default::default())),
         UKind::RevF32 => Box::new(RevOptDensMinHash::<f32, u64, FnvHasher>::new(m, Default::default())),
         UKind::RevF64 => Box::new(RevOptDensMinHash::<f64, u64, FnvHasher>::new(m, Default::default())),
+        UKind::Smh2U64NoHash => Box::new(SuperMinHash2::<u64, u64, NoHashHasher>::new(m, Default::default())),
+        UKind::OptF64NoHash => Box::new(OptDensMinHash::<f64, u64, NoHashHasher>::new(m, Default::default())),
+        UKind::RevF64NoHash => Box::new(RevOptDensMinHash::<f64, u64, NoHashHasher>::new(m, Default::default())),
     }
 }
 
